@@ -25,6 +25,7 @@ import (
 	"runtime"
 	"sort"
 	"strings"
+	"syscall"
 	"time"
 
 	"github.com/go-text/typesetting/font"
@@ -160,7 +161,7 @@ func (e *ixEngine) Generate(seed uint64, tier string, run int) (json.RawMessage,
 	n := rk.Range(3, 15)
 	faulty := rk.Chance(0.6)
 	for len(c.Steps) < n+3 {
-		w := []int{5, 3, 4, 3, 3, 1, 1, 2, 8, 0, 0, 0, 0, 0, 0, 2, 1, 1, 2}
+		w := []int{5, 3, 4, 3, 3, 1, 1, 2, 8, 0, 0, 0, 0, 0, 0, 2, 1, 1, 2, 1}
 		if faulty {
 			w[9], w[10], w[11] = 4, 2, 2
 		}
@@ -217,6 +218,8 @@ func (e *ixEngine) Generate(seed uint64, tier string, run int) (json.RawMessage,
 			default:
 				c.Steps = append(c.Steps, IXStep{K: "retarget", P: kernel.Pick(rg, []string{"link", filepath.Join(kernel.Pick(rg, ixDirs), "dirlink")}), P2: kernel.Pick(rg, ixDirs[1:])})
 			}
+		case 19: // a font file replaced by something that can be stat'ed but not opened (a socket)
+			c.Steps = append(c.Steps, IXStep{K: "unopenable", P: someFile()})
 		case 18: // cp -p / archive extraction: a new file carries the modification time of another one
 			p := ixPath(rg)
 			files = append(files, p)
@@ -512,6 +515,18 @@ func (w *ixWorld) step(st *IXStep, roots []string) (*kernel.Violation, error) {
 		w.out.Count("probe.half_copied_font", 1)
 	case "junk":
 		w.writeFile(st.P, junkBytes(st.N), false)
+	case "unopenable":
+		p := w.abs(st.P)
+		if s1, err := os.Lstat(p); err == nil && s1.Mode().IsRegular() {
+			os.Remove(p)
+			if syscall.Mknod(p, syscall.S_IFSOCK|0o644, 0) == nil {
+				w.stamps[st.P] = w.tick()
+				w.dirty[st.P] = true
+				w.out.Count("probe.file_replaced_by_unopenable_node", 1)
+			} else {
+				delete(w.stamps, st.P)
+			}
+		}
 	case "add_same_stamp":
 		if st2, ok := w.stamps[st.P2]; ok && st.P != st.P2 {
 			if _, exists := w.stamps[st.P]; !exists {
